@@ -124,7 +124,8 @@ class Universe:
             if case["quote"] == "USD":
                 a.set_price(self.price_frame)
             else:
-                a.set_price(self.price_frame, self.tok[case["quote"]])
+                # the (frame, quote token) form that UniLpMarket.get_price_from_data() returns
+                a.set_price((self.price_frame, self.tok[case["quote"]]))
             a.interval = f"{self.k}min"
             a.strategy = make_script(self)
 
@@ -244,6 +245,10 @@ class Universe:
         j = min(max(h * 60 - self.start, 0), self.n - 1)
         return float(dq(self.eth[j], "0.01"))
 
+    def opt_tick(self):
+        """price grid of the option book: Deribit's 0.0005, or a binary-exact 1/2048 (levels can sit exactly on mark x multiple)"""
+        return D(1) / D(2048) if self.case["opt"].get("dyadic") else D("0.0005")
+
     def opt_listed(self, i, h):
         """is instrument i in the snapshot of hour h (gone after its settlement hour; optionally delisted in it)"""
         ins = self.case["opt"]["instruments"][i]
@@ -259,7 +264,7 @@ class Universe:
         from vf import deribit as dw
 
         o = self.case["opt"]
-        tick = D("0.0005")
+        tick = self.opt_tick()
         names = self.opt_names()
         hours = {}
         hs = self.opt_hours()
@@ -503,7 +508,8 @@ def run_op(u: Universe, op):
             v = m.vault[vk]
             return m.burn_and_withdraw(vk, v.osqth_short_amount * _frac(args[1]), v.collateral_amount * _frac(args[2]))
         if name == "lp_deposit":
-            free = [p for p in _uni_positions(pm, True)]
+            # normally a free position; with the third argument set, any position - incl. one another vault already holds
+            free = [p for p in _uni_positions(pm, not (len(args) > 2 and args[2]))]
             if not free:
                 return "skip"
             return m.deposit_uni_position(vks[args[0] % len(vks)], free[args[1] % len(free)])
@@ -742,10 +748,14 @@ def ref_value(u: Universe, bar, raw):
             coll = F(0)
             short = F(0)
             lp_part = F(0)
+            seen = set()
             for vid, (ca, sa_, nft) in vaults.items():
                 coll += fr(ca)
                 short += fr(sa_)
+                if nft is not None and nft in seen:
+                    continue  # every holding is counted exactly once, whatever number of vaults claims it
                 if nft is not None:
+                    seen.add(nft)
                     liq, p0, p1, _tr = raw["squni"][nft]
                     price = u.frames["squni"]["price"].iloc[j]
                     a0, a1 = uni_position_amounts(pm.pool_info, price, nft[0], nft[1], liq)
@@ -763,7 +773,7 @@ def ref_value(u: Universe, bar, raw):
                 hi = hs.index(h)
                 for i, ins in enumerate(c["opt"]["instruments"]):
                     if u.opt_listed(i, h):
-                        listed[u.opt_names()[i]] = D(ins["marks"][hi % len(ins["marks"])]) * D("0.0005")
+                        listed[u.opt_names()[i]] = D(ins["marks"][hi % len(ins["marks"])]) * u.opt_tick()
                 listed["ETH-FILLER-1-C"] = D("0.5")
             v = fr(cash)
             for nme, (amt, *_r) in pos.items():
